@@ -1,7 +1,8 @@
-CONSTANTS MaxLines = 4
+CONSTANTS MaxLines = 3
           Recognised <- Both
           CloseByAny = FALSE
           Directives = "skip-counted"
+          CloseAnyLength = FALSE
           Tracked = TRUE
 INIT CLInit
 NEXT CLNext
